@@ -71,7 +71,8 @@ def identify_lag(master, slave, steps):
 
     Identifiable: the residual of the best lag over its FULL overlap is below half of the residual of every other
     candidate over the INTERIOR window alone. Any least-squares search over a window between the interior and the full
-    overlap must then select L. `exact` is True when the records coincide bit-for-bit on the full overlap at lag L."""
+    overlap must then select L. `exact` is True when the records coincide bit-for-bit on the full overlap at lag L (decided by
+    comparing the samples, not by the residual: the square of a difference below 1e-162 underflows to zero)."""
     n = len(master)
     if len(slave) != n or n < 2 * steps + 2 or steps < 1:
         return None, 'too-short-or-unequal'
@@ -79,11 +80,17 @@ def identify_lag(master, slave, steps):
     best = min(full, key=lambda L: (interior[L], abs(L)))
     others = [interior[L] for L in full if L != best]
     if not others:
-        return (0, full[0] == 0.0) if steps == 1 else (None, 'no-candidates')
+        return (0, coincide(master, slave, 0)) if steps == 1 else (None, 'no-candidates')
     mo = min(others)
     if not (mo > 0.0) or not (full[best] < 0.5 * mo) or not math.isfinite(mo):
         return None, 'lag-not-unique'
-    return best, full[best] == 0.0
+    return best, coincide(master, slave, best)
+
+
+def coincide(master, slave, L):
+    """slave[t + L] == master[t] bit-for-bit for every t of the overlap at lag L."""
+    n = len(master)
+    return all(float(slave[t + L]) == float(master[t]) for t in range(max(0, -L), min(n, n - L)))
 
 
 def overlap_after_removal(n, L):
